@@ -43,6 +43,8 @@ SoftOnceInTask == Is("soft") =>
 (* C01 / C10 *)
 SendFailResolves == Is("sendfail") => (o.bad_outcome = "exc" /\ o.error_callbacks = 1 /\ o.good_ok)
 SendFailSlot == Is("sendfail") => (o.slots_free = o.slots \/ TolSendFailSlot)
+(* C10: the slot of a job that was timed out comes back when its worker has been replaced *)
+HardSlotBack == Is("hard") => o.slots_free = o.slots
 (* C09 *)
 RecycleHarmless == Is("recycle") =>
     (o.outcome = "ok" /\ o.items /\ o.max_per_worker <= o.quota /\ o.max_per_worker >= 1 /\ o.secs10 < 50 + Slack10)
